@@ -182,7 +182,12 @@ def main(argv):
     rep.say("== %s (%s tier, seed %d)" % (cid, tier, rep.seed))
     # 1. tables + build
     info = common.ensure_build()
-    build_ok = (info["rc"] == 0 and not info["gate"] and not info["tables"].get("errors"))
+    # a file that does not build matters for this property only if props/<cid>.v depends on it (make -k builds the rest)
+    relevant_failed = [f for f in (info.get("failed") or []) if f in common.dependencies_of("props/%s.v" % cid)]
+    build_ok = ((info["rc"] == 0 or (info.get("failed") and not relevant_failed)) and not info["gate"]
+                and not info["tables"].get("errors"))
+    if info["rc"] != 0 and not relevant_failed and info.get("failed"):
+        rep.say("  (files outside this property's dependencies do not build: %s)" % info.get("failed"))
     rep.say("  build: rc=%s in %ss, tables changed: %s%s" % (
         info["rc"], info["make_s"], info["tables"].get("changed"),
         (" FAILED FILES: %s" % info["failed"]) if info["rc"] else ""))
